@@ -203,6 +203,7 @@ int main(int argc, char** argv) {
   unsigned long long seed = 0;
   std::vector<std::vector<Proc>> phases;
   int nscen = 0;
+  bool gave_up = false;
   // the whole input is read before the first fork (a forked child's exit() must never see a
   // partially consumed stdin)
   std::stringstream input;
@@ -224,6 +225,11 @@ int main(int argc, char** argv) {
       phases.back().push_back(p);
     } else if (w == "end") {
       ++nscen;
+      if (gave_up) {
+        // a previous scenario hung (lock lost): the remaining ones are not run
+        std::printf("trace %s\nobs %s status=skipped max_in_cs=0 entries=0\n", name.c_str(), name.c_str());
+        continue;
+      }
       const std::string suffix = std::string(private_tag) + std::to_string(::getpid()) + "-" + std::to_string(nscen);
       ::setenv("TFEL_VERIF_SEM_SUFFIX", suffix.c_str(), 1);
       const auto sname = sem_name(suffix);
@@ -270,6 +276,7 @@ int main(int argc, char** argv) {
             ::usleep(1000);
             if (++waited > 20000) {
               status = "timeout";
+              gave_up = true;
               for (std::size_t i = 0; i != pids.size(); ++i) {
                 if (!done[i]) {
                   ::kill(pids[i], SIGKILL);
